@@ -35,7 +35,8 @@ CHECKS = {
     "C02": ("exploration",
             "Same histories, skewed to immutable/never (70%); at every Filter the harness snapshots what the pod's key and "
             "its app/pool reserve hold, at the matching successful Bind the binding annotation must name exactly the held IP "
-            "(per requested range), and a deployment/pool pod with a reserve must take one of the reserved IPs.",
+            "(per requested range), and a deployment/pool pod with a reserve must take one of the reserved IPs; at bind time a "
+            "pod whose filter-time hand-over was undone (it holds nothing although a routable reserve exists) must not get a fresh IP.",
             "runtime monitoring: before/after state comparison around filter and bind in simulated histories",
             "3 (C02)", SIM_NOTE),
     "C03": ("exploration",
@@ -111,7 +112,8 @@ CHECKS = {
     "C11": ("exploration",
             "Key laws (injectivity, ParseKey round trip, prefix containment) over generated pods of every owner kind, and API "
             "laws against the real api.Controller served over HTTP on IPAMs populated with every key kind: paging shows each "
-            "allocated IP exactly once, every listed releasable entry posted back releases exactly that IP (also with appType "
+            "allocated IP exactly once (owner kinds include adversarial prefix/suffix/plural variants of the built-in kinds on "
+            "the same names), every listed releasable entry posted back releases exactly that IP (also with appType "
             "omitted for statefulsets), cross-owner posts change nothing, and an entry's outcome in a mixed batch equals its "
             "outcome when posted alone (forced adjacencies of entries with and without appType).",
             "runtime monitoring: property-based law checking against the real key codec and HTTP API",
@@ -150,8 +152,11 @@ CHECKS = {
             "a full sync the GLX sets, policy chains and local pod chains must equal those of a fresh manager synced on empty "
             "fakes with the same cluster state (prior states: other clusters, event sequences incl. cache-ahead-of-handler, "
             "planted stale GLX objects, restarts); a second sync must change nothing; foreign chains/rules/sets/tables must be "
-            "byte-identical; the fakes' reject logs must hold no missing-chain/missing-set/in-use rejection (also when one "
-            "ipset/iptables operation of the sync fails).",
+            "byte-identical; the fakes' reject logs must hold no missing-chain/missing-set/in-use rejection. A quarter of the "
+            "cases each run the manager over the exec-backed ipset / iptables runners with a fake exec that interprets their "
+            "command lines against the same strict stores; IP-less re-created pods, upper-case hostname overrides and two "
+            "shapes of pod-add events are part of the inputs. A stage with one failing ipset/iptables operation is recorded as "
+            "observations only (tool failures are outside the quantifier).",
             "runtime monitoring: differential convergence/idempotence oracle + reject log of a strict kernel model",
             "3 (C15)", "Trusted: harness/fakes (iptables part calibrated against the real tool by the C14 thorough tier; ipset "
             "semantics follow the kernel documentation, the ipset binary is not installed here)."),
